@@ -1,9 +1,269 @@
-//! C15 — not implemented yet.
-use crate::util::{Args, Out};
-use serde_json::{Value, json};
+//! C15 — compilation is deterministic: the bytecode listing, the WASM bytes, the
+//! published state layout and the run outputs of one source must be identical across
+//! repeated compilations in one process, after arbitrary compilation histories, and
+//! in fresh processes (different hash seeds).
 
-pub fn meta(_args: &Args) -> Value {
-    json!({"level": "exploration", "rule": "not implemented", "floor": {"quick": 1000000, "thorough": 1000000}})
+use super::c01::corpus_files;
+use super::progcase::{Case, gen_case, input_fn};
+use super::{drive, replay_one};
+use crate::run::{Backend, Session};
+use crate::util::{Args, Out, fnv};
+use serde_json::{Value, json};
+use std::path::PathBuf;
+
+#[derive(Debug, Clone, PartialEq, Eq)]
+pub struct Artefacts {
+    pub bytecode: String,
+    pub wasm: String,
+    pub skeleton: String,
+    pub outputs: String,
+    pub accepted: String,
 }
-pub fn run(_args: &Args, _out: &mut Out) {}
-pub fn replay(_args: &Args, _out: &mut Out, _case: &Value) {}
+
+impl Artefacts {
+    fn to_json(&self) -> Value {
+        json!({"bytecode": self.bytecode, "wasm": self.wasm, "skeleton": self.skeleton, "outputs": self.outputs, "accepted": self.accepted})
+    }
+    fn from_json(v: &Value) -> Option<Artefacts> {
+        Some(Artefacts {
+            bytecode: v.get("bytecode")?.as_str()?.into(),
+            wasm: v.get("wasm")?.as_str()?.into(),
+            skeleton: v.get("skeleton")?.as_str()?.into(),
+            outputs: v.get("outputs")?.as_str()?.into(),
+            accepted: v.get("accepted")?.as_str()?.into(),
+        })
+    }
+    fn diff(&self, o: &Artefacts) -> Vec<&'static str> {
+        let mut d = vec![];
+        if self.accepted != o.accepted {
+            d.push("accept/reject");
+        }
+        if self.bytecode != o.bytecode {
+            d.push("bytecode-listing");
+        }
+        if self.wasm != o.wasm {
+            d.push("wasm-bytes");
+        }
+        if self.skeleton != o.skeleton {
+            d.push("state-layout");
+        }
+        if self.outputs != o.outputs {
+            d.push("outputs");
+        }
+        d
+    }
+}
+
+fn h(s: &[u8]) -> String {
+    format!("{:016x}:{}", fnv(s), s.len())
+}
+
+/// Compile `c` once on each back end and hash the four artefacts named by the property.
+pub fn artefacts(c: &Case) -> Artefacts {
+    let path = c.path.as_ref().map(PathBuf::from);
+    let inp = input_fn(c.input_seed, true);
+    let mut a = Artefacts { bytecode: "-".into(), wasm: "-".into(), skeleton: "-".into(), outputs: String::new(), accepted: String::new() };
+    // VM
+    match Session::build(Backend::Vm, &c.src, c.scheduler, path.clone()) {
+        Ok(mut s) => {
+            a.accepted.push_str("vm:ok ");
+            if let Some(vm) = s.vm() {
+                let listing = format!("{}", vm.prog);
+                a.bytecode = h(listing.as_bytes());
+                a.skeleton = h(format!("{:?}", vm.prog.get_dsp_state_skeleton()).as_bytes());
+            }
+            let mut out = vec![];
+            let ich = s.io.input as usize;
+            let mut inbuf = vec![0.0; ich];
+            for t in 0..c.n {
+                for (k, v) in inbuf.iter_mut().enumerate() {
+                    *v = inp(t, k);
+                }
+                match s.step(&inbuf) {
+                    Ok(o) => out.extend(o.out.iter().map(|x| x.to_bits())),
+                    Err(_) => {
+                        out.push(0xdead);
+                        break;
+                    }
+                }
+            }
+            a.outputs.push_str(&h(&out.iter().flat_map(|x| x.to_le_bytes()).collect::<Vec<u8>>()));
+        }
+        Err(e) => a.accepted.push_str(&format!("vm:{} ", if e.is_reject() { "rejected" } else { "failed" })),
+    }
+    // WASM bytes through the compile entry point the CLI uses
+    let driver = mimium_audiodriver::backends::local_buffer::LocalBufferDriver::new(0);
+    let _ = driver;
+    let mut ctx = mimium_lang::ExecContext::new([].into_iter(), path, mimium_lang::Config::default());
+    if c.scheduler {
+        ctx.add_system_plugin(mimium_scheduler::get_default_scheduler_plugin());
+    }
+    ctx.prepare_compiler();
+    match crate::util::catch(|| ctx.get_compiler().unwrap().emit_wasm(&c.src)) {
+        Ok(Ok(o)) => {
+            a.accepted.push_str("wasm:ok");
+            a.wasm = h(&o.bytes);
+            let sk = h(format!("{:?}", o.dsp_state_skeleton).as_bytes());
+            a.skeleton = format!("{}|{}", a.skeleton, sk);
+        }
+        Ok(Err(_)) => a.accepted.push_str("wasm:rejected"),
+        Err(_) => a.accepted.push_str("wasm:panicked"),
+    }
+    a
+}
+
+pub struct Checked {
+    pub violations: Vec<(String, String)>,
+    pub compiled: bool,
+    pub processes: u64,
+    pub history: u64,
+    pub child_failed: u64,
+}
+
+fn child_artefacts(c: &Case) -> Option<Artefacts> {
+    use std::io::Write;
+    let dir = std::env::temp_dir().join(format!("mmv-c15-{}", std::process::id()));
+    let _ = std::fs::create_dir_all(&dir);
+    let cf = dir.join("case.json");
+    {
+        let mut f = std::fs::File::create(&cf).ok()?;
+        let _ = f.write_all(serde_json::to_string(c).ok()?.as_bytes());
+    }
+    let exe = std::env::current_exe().ok()?;
+    let out = std::process::Command::new(exe).arg("C15").arg("--hashof").arg(&cf).stderr(std::process::Stdio::null()).output().ok()?;
+    let txt = String::from_utf8_lossy(&out.stdout);
+    let line = txt.lines().rev().find_map(|l| l.strip_prefix("ARTEFACTS "))?;
+    Artefacts::from_json(&serde_json::from_str::<Value>(line).ok()?)
+}
+
+pub fn check(c: &Case, others: &[Case], nproc: usize) -> Checked {
+    let mut res = Checked { violations: vec![], compiled: false, processes: 0, history: 0, child_failed: 0 };
+    let a1 = artefacts(c);
+    res.compiled = a1.accepted.contains("ok");
+    let a2 = artefacts(c);
+    for d in a1.diff(&a2) {
+        res.violations.push((format!("{d}-differs/back-to-back-in-one-process"), format!("{a1:?} vs {a2:?}")));
+    }
+    for o in others {
+        let _ = artefacts(o);
+        res.history += 1;
+    }
+    let a3 = artefacts(c);
+    for d in a1.diff(&a3) {
+        res.violations.push((format!("{d}-differs/after-compiling-other-programs"), format!("history of {} compilations: {a1:?} vs {a3:?}", others.len())));
+    }
+    for _ in 0..nproc {
+        match child_artefacts(c) {
+            Some(ac) => {
+                res.processes += 1;
+                for d in a1.diff(&ac) {
+                    res.violations.push((format!("{d}-differs/fresh-process"), format!("{a1:?} vs {ac:?}")));
+                }
+            }
+            None => res.child_failed += 1,
+        }
+    }
+    res.violations.sort();
+    res.violations.dedup_by(|a, b| a.0 == b.0);
+    res
+}
+
+pub fn meta(args: &Args) -> Value {
+    json!({
+        "level": "exploration",
+        "rule": "every shipped source (type declarations, enums, aliases, modules, macros, many functions — the hash-map backed tables) and generated core programs; each is compiled (bytecode listing via Display of vm::Program, WASM bytes via Context::emit_wasm, Debug of the dsp skeleton, n output samples) twice back to back, again after 0-50 other programs were compiled in the same process, and in 4 (thorough: 8) fresh processes with their own hash seeds; all hashes must be equal. Non-trivial = at least one back end accepted the program; distinct = hash of text.",
+        "assumptions": ["a fresh process gets fresh RandomState keys", "artefacts are compared by FNV-1a hash and length"],
+        "floor": {"quick": 40, "thorough": 1000},
+        "case_timeout_s": 90,
+        "hang_is_violation": false,
+        "crash_is_violation": false,
+        "budget": args.cases(80, 3000),
+    })
+}
+
+fn exec_with(args: &Args) -> impl Fn(&(Case, Vec<Case>), usize, &mut Out) -> bool + '_ {
+    move |(c, others), idx, out| {
+        let nproc = if args.thorough() { 8 } else { 4 };
+        let r = check(c, others, nproc);
+        out.count("fresh_processes_compared", r.processes);
+        out.count("history_compilations", r.history);
+        if r.child_failed > 0 {
+            out.inconclusive(idx, "a fresh process died or printed no artefacts (crashes are C03's business)");
+        }
+        out.count("artefact_sets_compared", 2 + r.processes);
+        let origin = c.origin.as_deref().unwrap_or("generated");
+        out.count(&format!("origin:{}", origin.split(':').next().unwrap_or("")), 1);
+        for (sig, detail) in &r.violations {
+            let key = format!("violations:{sig}");
+            let seen = out.counters.get(&key).copied().unwrap_or(0);
+            out.count(&key, 1);
+            if seen < 4 {
+                out.violation(idx, sig, detail, &serde_json::to_value((c, Vec::<Case>::new())).unwrap());
+            }
+        }
+        r.compiled
+    }
+}
+
+pub fn run(args: &Args, out: &mut Out) {
+    if let Some(f) = args.extra.get("hashof") {
+        // child mode: print the artefact hashes of one case
+        let c: Case = serde_json::from_str(&std::fs::read_to_string(f).expect("case file")).expect("case json");
+        println!("\nARTEFACTS {}", artefacts(&c).to_json());
+        std::process::exit(0);
+    }
+    let files = corpus_files(&args.repo);
+    let ncorpus = files.len();
+    let ngen = args.cases(80, 3000);
+    let exec = exec_with(args);
+    drive(
+        args,
+        out,
+        ncorpus + ngen,
+        |idx, rng| {
+            let mk_corpus = |i: usize, rng: &mut crate::util::Rng| -> Option<Case> {
+                let f = &files[i];
+                let src = std::fs::read_to_string(f).ok()?;
+                for bad in ["Sampler", "sampler", "midi", "loadwav", "gen_sampler", "Slider", "Probe"] {
+                    if src.contains(bad) {
+                        return None;
+                    }
+                }
+                Some(Case {
+                    src,
+                    n: 8,
+                    input_seed: rng.next(),
+                    finite_inputs: true,
+                    prog: None,
+                    expect: None,
+                    scheduler: true,
+                    path: Some(f.to_string_lossy().to_string()),
+                    origin: Some(format!("corpus:{}", f.file_name()?.to_string_lossy())),
+                    split: None,
+                })
+            };
+            let main = if idx < ncorpus { mk_corpus(idx, rng)? } else { gen_case(args, rng, true) };
+            // compilation history: 0..50 other programs (mostly few, so the case stays cheap)
+            let k = if rng.chance(1, 10) { 10 + rng.below(40) } else { rng.below(4) };
+            let mut others = vec![];
+            for _ in 0..k {
+                if rng.chance(1, 2) && ncorpus > 0 {
+                    if let Some(c) = mk_corpus(rng.below(ncorpus), rng) {
+                        others.push(c);
+                    }
+                } else {
+                    let mut g = gen_case(args, rng, true);
+                    g.n = 1;
+                    others.push(g);
+                }
+            }
+            Some((main, others))
+        },
+        exec,
+    );
+}
+
+pub fn replay(args: &Args, out: &mut Out, case: &Value) {
+    let exec = exec_with(args);
+    replay_one::<(Case, Vec<Case>)>(out, case, exec);
+}
